@@ -773,12 +773,15 @@ def c14(v, tier, seed):
         for k_, d_, r_ in vv.violations: v.violation(k_, d_, r_)
     def scratch():
         return Verdict("C14", tier, seed, v.level)
+    _swaps = {}
     def swaps_in_be_build():
         """byte swapping reachable from library code compiled for a big-endian host (-O0, so nothing is folded or recognised as an idiom):
         a big-endian host never needs to swap big-endian wire data.  Evidence against the helper-free styles: code that swaps
         unconditionally gives the right bytes on little-endian memory whatever the configuration says."""
         import subprocess
+        if "v" in _swaps: return _swaps["v"]
         found = []
+        _swaps["v"] = found
         for src in lib_sources():
             obj = os.path.join(wd, "be0_" + os.path.basename(src) + ".o")
             r_ = subprocess.run(["gcc", "-O0", "-c", "-w", "-std=gnu99"] + [f_ for f_ in VARIANTS["be"][1] if f_.startswith("-D") or f_.startswith("-U")] +
@@ -796,13 +799,19 @@ def c14(v, tier, seed):
     v.cov["states"] += vv.cov["states"]; v.cov["transitions"] += vv.cov["transitions"]; v.cov["evaluations"] += vv.cov["evaluations"]
     v.cov["replayed_transitions"] = v.cov.get("replayed_transitions", 0) + vv.cov.get("replayed_transitions", 0)
     if vv.violations:
+        # per entry point (reader / writer / the one-function history that uses both)
+        rawop = lambda k_: re.search(r"raw op=(\w+)", k_).group(1) if re.search(r"raw op=(\w+)", k_) else k_
+        pending = set(rawop(k_) for k_, _, _ in vv.violations)
         vb = scratch()
         hostx.raw_replay(vb, ex_x, nat, rnd, "crossed (helper-free accessors)")
+        explained = pending - set(rawop(k_) for k_, _, _ in vb.violations)
         sw = swaps_in_be_build()
-        if not vb.violations and not sw: acc_style = "bits"
-        else:
-            if sw: v.cov["swaps_in_big_endian_build"] = sw
-            merge(vv)
+        if explained and not sw:
+            pending -= explained
+            if {"get", "set"} <= explained or not (pending & {"get", "set"}): acc_style = "bits"
+        if sw: v.cov["swaps_in_big_endian_build"] = sw
+        for k_, d_, r_ in vv.violations:
+            if rawop(k_) in pending: v.violation(k_, d_, r_)
     v.cov["accessor_style_in_crossed_build"] = acc_style
     # (2b) host independence is agreement of BOTH builds with the one specification: the native build on the array encodings
     #      (also with the samples converted in place), the crossed build below
@@ -812,10 +821,9 @@ def c14(v, tier, seed):
     sub = [x for x in resn.emitted if len(x["pre"]) <= 700]
     v.cov["evaluations"] += vss.replay(v, ex_n, sub, rnd, places=[("E", 0)], tag="[native] ")["executed"]
     groups = [ALL_VIEWS[i::3] for i in range(3)] if q else [[x] for x in ALL_VIEWS]
-    codec_style = ["helpers"]
-    def crossed_scn(vt, scn, gi, g, codec):
-        res = run_tlc("GenX", hostx.x_cfg(scn, g, "LE", "BE", bigcounts=(64, 300) if q else (64, 300, 512, 1024), acc=acc_style, codec=codec), wd, timeout=3600)
-        v.add_tlc("GenX/%s[%d]%s" % (scn, gi, "" if (acc_style, codec) == ("walk", "helpers") else " (%s, %s)" % (acc_style, codec)), res)
+    def crossed_scn(vt, scn, gi, g, acc, codec):
+        res = run_tlc("GenX", hostx.x_cfg(scn, g, "LE", "BE", bigcounts=(64, 300) if q else (64, 300, 512, 1024), acc=acc, codec=codec), wd, timeout=3600)
+        v.add_tlc("GenX/%s[%d]%s" % (scn, gi, "" if (acc, codec) == ("walk", "helpers") else " (%s, %s)" % (acc, codec)), res)
         if not res.ok: raise Infra("HostModel violates HostIndependence (%s):\n%s" % (scn, (res.violation or "")[-1500:]))
         return crossed_replay(vt, scn, res.emitted)
     def crossed_replay(v, scn, vecs):
@@ -837,19 +845,34 @@ def c14(v, tier, seed):
                 st = vss.replay(v, ex_x, vecs, rnd)
             v.cov["evaluations"] += st["executed"]; v.cov["replayed_transitions"] = v.cov.get("replayed_transitions", 0) + len(vecs)
             if vecs: v.sample({"crossed_transition": {k: (vecs[0][k] if len(str(vecs[0][k])) < 200 else "...") for k in vecs[0]}})
+    # Every entry point may reach multi-byte values in its own way.  The prediction for the tree's own style (accessor style found above,
+    # codec through the helpers) comes first; entry points it does not explain are compared with the predictions of the other style
+    # combinations.  An entry point is accepted if ONE combination explains all of its transitions - a helper-free combination only if
+    # the library compiled for a big-endian host contains no swap primitive.
+    def entry(k_):
+        return re.sub(r" kind=\S+$", "", k_)
+    other = "bits" if acc_style == "walk" else "walk"
+    helper_free = {}
     for scn in ("fields", "init", "can", "vss", "strarr"):
         for gi, g in enumerate(groups if scn in ("fields", "init") else [ALL_VIEWS[:1]]):
             vt = scratch()
-            crossed_scn(vt, scn, gi, g, codec_style[0])
-            if vt.violations and scn in ("vss", "strarr") and codec_style[0] == "helpers":
-                # the codec may store its units byte by byte in wire order instead of converting host objects: try that style
-                vb = scratch()
-                crossed_scn(vb, scn, gi, g, "bytes")
-                if not vb.violations and not swaps_in_be_build(): codec_style[0] = "bytes"; vt = vb
-            merge(vt)
+            crossed_scn(vt, scn, gi, g, acc_style, "helpers")
             v.cov["evaluations"] += vt.cov["evaluations"]; v.cov["replayed_transitions"] = v.cov.get("replayed_transitions", 0) + vt.cov.get("replayed_transitions", 0)
             for s_ in vt.cov["samples"][:1]: v.sample(s_)
-    v.cov["codec_style_in_crossed_build"] = codec_style[0]
+            pending = set(entry(k_) for k_, _, _ in vt.violations)
+            if pending:
+                combos = [(acc_style, "bytes"), (other, "helpers"), (other, "bytes")] if scn in ("vss", "strarr") else [(other, "helpers")]
+                for acc_, codec_ in combos:
+                    if not pending: break
+                    vb = scratch()
+                    crossed_scn(vb, scn, gi, g, acc_, codec_)
+                    explained = pending - set(entry(k_) for k_, _, _ in vb.violations)
+                    if explained and not swaps_in_be_build():
+                        pending -= explained
+                        for e_ in explained: helper_free[e_] = "%s/%s" % (acc_, codec_)
+            for k_, d_, r_ in vt.violations:
+                if entry(k_) in pending: v.violation(k_, d_, r_)
+    v.cov["entry_points_explained_by_another_style"] = dict(sorted(helper_free.items())[:200])
     v.cov["rule"] = ("model: T7 (quadlet walk = bit semantics on both hosts) over every descriptor shape, HostIndependence for named fields, initialisers, CAN builders "
                      "and the VSS codec; binding: native build replay of the shape sweep and crossed build (forced big-endian helper set on little-endian memory) replay "
                      "of shapes, every named field x 2 paths, initialisers, CAN builds and VSS put/get, compared with the model's prediction for (host=LE, branch=BE)")
@@ -1357,8 +1380,12 @@ def listener_queues(v, wd, pid, seed, q, exes=None):
         evs = []
         for s, o in zip(scns, obs):
             if o["status"] != "ok" or o["done"] != len(s["hist"]):
-                v.hard_violation("listener-queue=%s outcome=%s" % (kind, o["status"].split(":")[0] if o["status"] != "ok" else "stuck"),
-                            "%s listener %s after %d of %d steps of a generated behaviour" % (kind, o["status"], o["done"], len(s["hist"])), {"scenario": s}); continue
+                at = s["hist"][o["done"]]["a"] if o["done"] < len(s["hist"]) else "?"
+                # timer expirations are scheduled from the MODEL's queue: if the program legitimately queued less (another truncation rule),
+                # timeout() is called in a state the real program never calls it in - that is a deviation from the growth specification
+                rep_ = v.violation if at == "timeout" else v.hard_violation
+                rep_("listener-queue=%s outcome=%s%s" % (kind, o["status"].split(":")[0] if o["status"] != "ok" else "stuck", " at=timer-step" if at == "timeout" else ""),
+                     "%s listener %s after %d of %d steps of a generated behaviour (step %d is a %s step)" % (kind, o["status"], o["done"], len(s["hist"]), o["done"], at), {"scenario": s}); continue
             if any(r_ < 0 for r_ in o["rets"]):       # the main loop of the listener ends on a negative return: it cannot process the next datagram
                 k_ = next(i for i, r_ in enumerate(o["rets"]) if r_ < 0)
                 v.hard_violation("listener-queue=%s outcome=listener-terminates" % kind, "%s listener: step %d of a generated behaviour (%s) returns %d - the listener's main loop ends" % (
@@ -1480,16 +1507,19 @@ def c18(v, tier, seed):
             cases.append({"class": cl, "m0": m0, "m1": m1, "m2": 0, "bytes": b})
         ncases += len(cases)
         lines, meta = [], []
+        # the listeners that are run through their own main loop (hello-world, ACF-VSS) in text mode: what they print per datagram is
+        # captured, so that "still able to process the next datagram" is observable (output present where it is present alone)
+        tm = 1 if lk in ("hello", "vss") else 0
         for (m0, m1), g in goods.items():
-            lines.append("L %d %d 0 %s" % (m0, m1, hexs(g["bytes"]))); meta.append(("alone", g, None))
+            lines.append("L %d %d %d %s" % (m0, m1, tm, hexs(g["bytes"]))); meta.append(("alone", g, None))
         for cse in cases:
             g = goods.get((cse["m0"], cse["m1"]))
-            lines.append("L %d %d 0 %s" % (cse["m0"], cse["m1"], hexs(cse["bytes"]))); meta.append(("single", cse, g))
+            lines.append("L %d %d %d %s" % (cse["m0"], cse["m1"], tm, hexs(cse["bytes"]))); meta.append(("single", cse, g))
             # the same datagram with the listener started from an interactive terminal (isatty() true for stdin/stdout): what surrounds
             # the process is not part of "whatever datagram arrives"
             lines.append("L %d %d 3 %s" % (cse["m0"], cse["m1"], hexs(cse["bytes"]))); meta.append(("single-tty", dict(cse, **{"class": cse["class"] + "@terminal"}), g))
             if g is not None and not cse["class"].startswith("good"):
-                lines.append("L %d %d 0 %s %s" % (cse["m0"], cse["m1"], hexs(cse["bytes"]), hexs(g["bytes"]))); meta.append(("then-good", cse, g))
+                lines.append("L %d %d %d %s %s" % (cse["m0"], cse["m1"], tm, hexs(cse["bytes"]), hexs(g["bytes"]))); meta.append(("then-good", cse, g))
         # soak: a long run of one well-formed datagram in one process with a 1 MiB stack (per-datagram resource growth)
         nsoak = (2500 if q else 8000) if lk != "crf" else 12       # (the media clock search of the crf listener takes ~0.7 s per AAF datagram)
         for cse in [c_ for c_ in cases if c_["class"].startswith("good")]:
@@ -1511,13 +1541,18 @@ def c18(v, tier, seed):
                        for (kind, cse, g), o in zip(meta, obs) if kind in ("alone", "single", "then-good")]
             with v.growth_scope("CanListener.tla (what the ACF-CAN listener forwards for any datagram)"):
                 listeners.can_listener_function(v, wd, "C18", can_obs, q)
+        def lastseg(o):
+            # the digest closes the segment of every datagram with a separator: the segment of the last datagram is the last non-trailing one
+            segs = o["outs"]
+            if segs and not segs[-1] and len(segs) > 1: segs = segs[:-1]
+            return segs[-1:]
         alone = {}
         for (kind, cse, g), o in zip(meta, obs):
             if kind == "alone":
-                alone[(cse["m0"], cse["m1"])] = {"ret": o["rets"][-1:] if o["rets"] else [], "out": o["outs"][-1:] if o["outs"] else []}
+                alone[(cse["m0"], cse["m1"])] = {"ret": o["rets"][-1:] if o["rets"] else [], "out": lastseg(o) if o["outs"] else []}
         for ci, ((kind, cse, g), o) in enumerate(zip(meta, obs)):
             n = 2 if kind == "then-good" else (nsoak + 1 if kind == "soak" else 1)
-            last = {"ret": o["rets"][-1:] if (o["rets"] and o["done"] == n) else [], "out": o["outs"][-1:] if (o["outs"] and o["done"] == n) else []}
+            last = {"ret": o["rets"][-1:] if (o["rets"] and o["done"] == n) else [], "out": lastseg(o) if (o["outs"] and o["done"] == n) else []}
             if lk == "crf":         # the media-clock recovery is stateful by design: only survival is required of the next datagram
                 last = {"ret": [], "out": []}
             ev = {"e": "seq", "listener": lk, "classes": [cse["class"] + ("-x%d" % nsoak if kind == "soak" else "")] + (["good"] if kind in ("then-good", "soak") else []), "mode": [cse["m0"], cse["m1"]],
@@ -1526,7 +1561,13 @@ def c18(v, tier, seed):
                   "fatal": 1 if (lk in ("can", "cvf", "aaf", "crf") and any(r_ < 0 for r_ in o["rets"])) else 0,
                   "last": last, "alone": alone.get((cse["m0"], cse["m1"]), {"ret": [], "out": []}) if lk != "crf" else {"ret": [], "out": []},
                   "bytes": hexs(cse["bytes"])[:3200]}
+            ev["lo"] = 1 if any(seg_ for seg_ in ev["last"]["out"]) else 0
+            ev["ao"] = 1 if any(seg_ for seg_ in ev["alone"]["out"]) else 0
+            if kind == "soak" and tm: ev["ao"] = 0; ev["alone"] = dict(ev["alone"], out=[]); ev["last"] = dict(ev["last"], out=[])   # soak runs do not capture the text
             if kind == "alone": ev["lastgood"] = 0
+            if ev["lastgood"] and lk != "can" and o["status"] == "ok" and ev["last"] != ev["alone"] and ev["last"]["ret"] == ev["alone"]["ret"] and (ev["lo"] or not ev["ao"]):
+                with v.growth_scope("SameAsAlone (a text-printing listener prints the same text for a datagram whatever came before)"):
+                    v.violation("listener=%s class=%s+good output-text-differs" % (lk, ev["classes"][0]), "the well-formed datagram is handled, but the printed text differs from the text printed when it is delivered alone", {"event": ev})
             if o["status"] != "ok":
                 ev["report"] = rep_by_cmd.get(ci, "")
             all_events.append(ev)
@@ -1542,7 +1583,8 @@ def c18(v, tier, seed):
         pdu.validate_events(v, wd, pdu.shard(evs, 4), "C18", "listener-" + lk, module="ListenerTrace", cfg=cfgt, keyfn=keyfn)
     # whatever the bounded resume did not reach is classified directly by the same rule (Safe), so no case is left unexamined
     for ev in all_events:
-        if not (ev["status"] == "ok" and not ev.get("fatal") and ev["done"] == ev["n"] and (ev["lastgood"] == 0 or ev["last"] == ev["alone"])):
+        usable = ev["lastgood"] == 0 or (ev["last"]["ret"] == ev["alone"]["ret"] and (ev["lo"] or not ev["ao"]) and (ev["listener"] != "can" or ev["last"] == ev["alone"]))
+        if not (ev["status"] == "ok" and not ev.get("fatal") and ev["done"] == ev["n"] and usable):
             v.violation(keyfn(ev), "%s listener, datagram class %s (mode %s)%s: %s after %d of %d datagrams %s; datagram %s" % (
                 ev["listener"], ev["classes"][0], ev["mode"], " followed by the well-formed datagram" if ev["lastgood"] else "", ev["status"], ev["done"], ev["n"],
                 ev.get("report", ""), ev["bytes"][:160]), {"event": ev})
